@@ -23,7 +23,7 @@ THOROUGH = [
     (["int"], dict(INT_FULL=2, INT_MAX=4, INT_LONG=12)),
     (["oid"], dict(OID_FULL=2, OID_MAX=4, OID_LONG=9)),
     (["bits", "bool", "time"], dict(BITS_FULL=2, BITS_MAX=4, BOOL_FULL=2, BOOL_MAX=3, TIMEMENU='"full"')),
-    (["len", "tag"], dict(LEN_FULL=3, LEN_MAX=5, LEN_SMALL=9, TAG_FULL=2, TAG_MAX=6)),
+    (["len", "tag"], dict(LEN_FULL=3, LEN_MAX=5, LEN_SMALL=7, TAG_FULL=2, TAG_MAX=6)),
 ]
 
 
